@@ -2614,8 +2614,17 @@ class PrefixWrapper:
             setattr(wrapper, attr, getattr(self, attr))
         return wrapper
 
+    def _hash_to_unicode(self, hash, encoding=None):
+        """decode a stored hash -- ascii, unless the wrapped hasher stores text in an
+        encoding of its own (plaintext), in which case that one (or the caller's) is used"""
+        if isinstance(hash, bytes):
+            encoding = encoding or getattr(self.wrapped, "default_encoding", None)
+            if encoding:
+                return to_unicode(hash, encoding, "hash")
+        return to_unicode(hash, "ascii", "hash")
+
     def needs_update(self, hash, **kwds):
-        hash = to_unicode(hash, "ascii", "hash")
+        hash = self._hash_to_unicode(hash)
         hash = self._unwrap_hash(hash)
         return self.wrapped.needs_update(hash, **kwds)
 
@@ -2649,6 +2658,6 @@ class PrefixWrapper:
         return self._wrap_hash(self.wrapped.hash(secret, **kwds))
 
     def verify(self, secret, hash, **kwds):
-        hash = to_unicode(hash, "ascii", "hash")
+        hash = self._hash_to_unicode(hash, kwds.get("encoding"))
         hash = self._unwrap_hash(hash)
         return self.wrapped.verify(secret, hash, **kwds)
